@@ -141,6 +141,8 @@ def check(run):
             # free / held / marked failed underneath is reported as such (locked iff held or failed; failed iff failed)
             if backend != 'keepalive':
                 memoized_observers(run, backend, scratch)
+            if backend == 'redis':
+                lost_reply_release(run)
             # random longer histories
             for k in range(20 if quick else 300):
                 nc = rng.choice([2, 3, 4])
@@ -266,6 +268,55 @@ def fail_racing_refresh(run, scratch):
     finally:
         fs.Popen = saved
         core.rm_rf(d)
+
+
+def lost_reply_release(run):
+    """redis: the holder's release() is executed by the server but the reply is lost (the connection drops); whatever the client then does - report the error, try again -
+    a lock that another client has taken in the meantime stays that client's: nobody else gets it"""
+    import redis as _redis
+    import jug.backends.redis_store as rs
+    from jugverif import fakeredis
+    for when in ('before-any-retry', 'no-interleaving'):
+        srv = fakeredis.FakeServer()
+        name = 'f' * 40
+        A, B, C = [rs.redis_lock(fakeredis.FakeRedis(srv), name) for _ in range(3)]
+        if not A.get():
+            raise core.InfraError('fresh redis lock not acquired')
+        st = {'lost': 0, 'b': None, 'busy': False}
+
+        def lost(cmd, key, client, st=st, A=A):
+            if client is A.redis and st['lost'] == 0:
+                st['lost'] = 1
+                return True
+            return False
+
+        def hook(cmd, key, st=st, B=B, when=when):
+            # the next command after the lost reply (a second DEL, if the client tries again): client B gets in first
+            if when == 'before-any-retry' and st['lost'] == 1 and st['b'] is None and not st['busy']:
+                st['busy'] = True
+                try:
+                    st['b'] = bool(B.get())
+                finally:
+                    st['busy'] = False
+        srv.reply_lost = lost
+        srv.hook = hook
+        raised = None
+        try:
+            A.release()
+        except (_redis.ConnectionError, _redis.TimeoutError) as e:
+            raised = e
+        srv.hook = None
+        srv.reply_lost = None
+        if st['b'] is None:
+            st['b'] = bool(B.get())
+        c = bool(C.get())
+        run.case(('lost-reply-release', when), nontrivial=True)
+        run.count('lost_reply_cases')
+        if st['b'] and c:
+            run.fail('two-holders-after-lost-reply', 'redis lock: the holder\'s release() was executed by the server but its reply was lost; client B then acquired the lock (get() = True) %s; afterwards '
+                     'client C also acquires it (get() = True) while B holds it (release() %s)' % ('before the first client tried again' if when == 'before-any-retry' else '',
+                                                                                               'raised %s' % type(raised).__name__ if raised else 'returned normally'),
+                     {'kind': 'lost-reply-release', 'when': when})
 
 
 def memoized_observers(run, backend, scratch):
